@@ -31,8 +31,7 @@ public:
 };
 
 QXmppTuneItemPrivate::QXmppTuneItemPrivate()
-    : length(0),
-      rating(0)
+    : length(0)
 {
 }
 /// \endcond
